@@ -109,3 +109,20 @@ Theorem C13_middleware_signed :
   (o = MwRedirect true \/ o = MwPost true) /\ exists h, signing_context m kt = Ok h.
 Proof. exact mw_start_signed. Qed.
 Print Assumptions C13_middleware_signed.
+
+(* an SP built by samlsp.New / DefaultServiceProvider with SignRequest: the
+   method chosen fits the key for every RSA and ECDSA key, hence the request
+   that leaves through the middleware is signed *)
+Theorem C13_samlsp_default_method_fits :
+  forall kt, kt <> KOther ->
+  nonempty (samlsp_default_method kt true) = true /\
+  exists h, signing_context (samlsp_default_method kt true) kt = Ok h.
+Proof. exact samlsp_default_method_fits. Qed.
+Print Assumptions C13_samlsp_default_method_fits.
+
+Theorem C13_samlsp_default_flow_signed :
+  forall mbinding hr kt o,
+  kt <> KOther -> mw_start mbinding hr (samlsp_default_method kt true) kt = Ok o ->
+  o = MwRedirect true \/ o = MwPost true.
+Proof. exact samlsp_default_flow_signed. Qed.
+Print Assumptions C13_samlsp_default_flow_signed.
